@@ -332,6 +332,11 @@ class Task:
                     break
                 continue
         self.res.wall = time.time() - t0
+        from . import interp as _interp
+        for si in list(_interp._SRCINFO.values()):
+            if getattr(si, "alpha", None):
+                self.res.assumptions.add(f"alpha: locals of {si.qualname} differ from the reference text by a pure renaming and were mapped back "
+                                         f"({', '.join(f'{a}->{b}' for a, b in sorted(si.alpha.items()))})")
         return self.res
 
     def run_path(self, log):
